@@ -12,6 +12,9 @@ def splitOnChar (s : String) (c : Char) : List String := (s.splitOn (String.sing
 def parseNats (s : String) : Option (List Nat) :=
   if s = "-" then some [] else (splitOnChar s ',').mapM (·.toNat?)
 
+def parseOrd (s : String) : Option (List Nat) :=
+  if s.startsWith "ord=" then (splitOnChar (s.drop 4).toString ',').mapM (·.toNat?) else none
+
 /-- `stake:fee:registered` -/
 def parseVal (s : String) : Option Val :=
   match s.splitOn ":" with
@@ -49,19 +52,24 @@ def showSet (l : List Member) : String :=
 def stepLine (st : Option Sys) (line : String) : Option Sys × String :=
   match words line, st with
   | ["reset"], _ => (none, "ok")
-  | "genesis" :: e :: mr :: mx :: ue :: vs, none =>
-    match parseInt e, parseInt mr, mx.toNat?, ue.toNat?, vs.mapM parseVal with
-    | some e, some mr, some mx, some ue, some vals =>
-      if e < 0 ∨ mr < 0 ∨ mr > ONE ∨ mx = 0 ∨ mx > 100 ∨ vals.isEmpty ∨ vals.length > 8 then (st, "bad-op")
+  | "genesis" :: e :: mr :: mx :: ue :: ord :: vs, none =>
+    match parseInt e, parseInt mr, mx.toNat?, ue.toNat?, vs.mapM parseVal, parseOrd ord with
+    | some e, some mr, some mx, some ue, some specs, some ord =>
+      if e < 0 ∨ mr < 0 ∨ mr > ONE ∨ mx = 0 ∨ mx > 100 ∨ specs.isEmpty ∨ specs.length > 8
+          ∨ ord.length ≠ specs.length ∨ !(List.range specs.length).all (fun i => ord.contains i) then (st, "bad-op")
       else
-        let s := genesis { E := e, minRel := mr, maxV := mx, unstakeEpochs := ue } vals
-        (some s, s!"ok set={showSet s.set}")
-    | _, _, _, _, _ => (st, "bad-op")
+        -- validators by label: label k is the spec `ord[k]`
+        match ord.mapM (fun i => specs[i]?) with
+        | none => (st, "bad-op")
+        | some vals =>
+          let s := genesis { E := e, minRel := mr, maxV := mx, unstakeEpochs := ue } vals
+          (some s, s!"ok set={showSet s.set}")
+    | _, _, _, _, _, _ => (st, "bad-op")
   | ["stake", i, x], some s =>
     match i.toNat?, parseInt x with
     | some i, some x =>
       if i ≥ s.vals.length then (st, "bad-op")
-      else if x ≤ 0 ∨ x > 2 ^ 100 then (st, "skip")
+      else if x ≤ 0 ∨ x > 2 ^ 90 then (st, "skip")
       else match s.stake i x with
         | .error e => (st, errName e)
         | .ok (s', u) => (some s', s!"ok {u} {showVals s'.vals}")
